@@ -10,7 +10,7 @@ Every implementation run happens in a supervised worker: address space 2 GB, CPU
 extracted model recurses over 10^6-element lists), wall-clock limits of lib/vcheck.  No case carries a size
 operand above 10^6 or a doubling program with more than 18 doublings.
 """
-import random, resource, time
+import random, resource, sys, time
 import vcheck
 from vcheck import Stream, sx_parse, sx_str
 from gen.stategen import *
@@ -38,6 +38,7 @@ def _c15_limits():
     resource.setrlimit(resource.RLIMIT_CORE, (0, 0))
 
 
+sys.setrecursionlimit(100000)      # the wall-clock stream builds items nested 1500 deep
 vcheck._limits = _c15_limits       # every worker of this check (implementation and extracted model) runs under these limits
 
 FILL = ["BOOLVECTOR.ONES", "BOOLVECTOR.ZEROS", "INTVECTOR.ONES", "INTVECTOR.ZEROS", "FLOATVECTOR.ONES", "FLOATVECTOR.ZEROS"]
@@ -69,9 +70,9 @@ def size_case(prof, name, n, extra_int=(), code=()):
     elif name == "FLOATVECTOR.RAND":
         st["int"] = [n]; st["float"] = [fbits(0.0), fbits(1.0)]
     elif name == "LIST.NEIGHBOR*IDS":
-        st["int"] = [n, 0, 1]; st["float"] = [fbits(1.0)]            # size n, index 0, 1 dimension, radius 1
+        st["int"] = [n, 0, 1]; st["float"] = [fbits(4000000.0)]      # size n, index 0, 1 dimension, a radius that covers everything
     elif name in NBR:
-        st["int"] = [0, n, 0, 1]; st["float"] = [fbits(1.0)]; st["code"] = [L(Z(1), B(True), F(fbits(0.5)))]
+        st["int"] = [0, n, 0, 1]; st["float"] = [fbits(4000000.0)]; st["code"] = [L(Z(1), B(True), F(fbits(0.5)))]
     elif name == "CODE.RAND":
         st["int"] = [n]
     elif name == "INTVECTOR.FROMINT":
@@ -190,7 +191,8 @@ def streams(seed, tier):
     for nm in FILL:
         for prof in (0, 1):
             cases.append(size_case(prof, nm, 10000))
-        cases.append(size_case(1, nm, 1000000))
+        if tier != "quick" or nm in ("BOOLVECTOR.ONES", "INTVECTOR.ZEROS"):      # 10^6 f32 patterns are 11 MB of text per result
+            cases.append(size_case(1, nm, 1000000))
     cases.append(size_case(0, SINE, 10000)); cases.append(size_case(1, SINE, 10000))
     cases.append(size_case(1, "LIST.NEIGHBOR*IDS", 10000))
     out.append(Stream("unbounded-10^4-10^6", "run", "cost.check", cases,
@@ -301,12 +303,17 @@ def extra(ctx):
     rng = random.Random(ctx.seed + 15)
     modelled = model_names()
     # (ii) the operand-controlled instructions the model does not reproduce: RNG draws, 10^6 float operations
+    quick = ctx.tier == "quick"
     cases = []
     for nm in RANDVEC:
-        cases += [size_case(0, nm, 10000), size_case(1, nm, 10000), size_case(1, nm, 1000000)]
-    cases += [size_case(1, SINE, 1000000), size_case(0, SINE, 1000000)]
+        cases += [size_case(0, nm, 10000), size_case(1, nm, 10000)]
+        if not quick or nm != "FLOATVECTOR.RAND":
+            cases.append(size_case(1, nm, 1000000))
+    cases += [size_case(1, SINE, 1000000)] + ([] if quick else [size_case(0, SINE, 1000000)])
     for nm in NBR:
-        cases += [size_case(0, nm, 10000), size_case(1, nm, 10000), size_case(1, nm, 1000000)]
+        cases += [size_case(0, nm, 10000), size_case(1, nm, 10000)]
+        if not quick or nm == "LIST.NEIGHBOR*IDS":
+            cases.append(size_case(1, nm, 1000000))
     impl_only(ctx, "unbounded-impl-only", cases,
               "vector RAND / FLOATVECTOR.SINE / LIST.NEIGHBOR* at 10^4 and 10^6 on the implementation alone (unseeded RNG; 10^6 Flocq operations): complete, violate the bound, known classes")
     # the scalar generators and CODE.RAND: bounded by the configured limits, results random
